@@ -190,6 +190,14 @@ NoLostWakeup == (lock = 0 /\ writeTxn = 0 /\ writeEvent = 0) => waiters = <<>>
 
 OneEventPerCall == \A t \in Writers : pc[t] = "wNewEv" => myEv[t] = 0
 
+(* an admission step is taken either when nobody waits and nobody holds the right, or by
+   the thread that holds the right (no newcomer overtakes a waiter) *)
+NoCutsStep ==
+    \A t \in Writers : (pc[t] = "wTest" /\ pc'[t] = "wRelA") =>
+        \/ (writeEvent = 0 /\ waiters = <<>> /\ myEv[t] = 0)
+        \/ (myEv[t] # 0 /\ myEv[t] = writeEvent)
+NoCuts == [][NoCutsStep]_vars
+
 -----------------------------------------------------------------------------
 (* The inductive invariant. *)
 InQ(e) == \E i \in DOMAIN waiters : waiters[i] = e
